@@ -15,7 +15,7 @@ import (
 
 type c04Mut struct {
 	// bitflip | subst | insert | delete | truncate | swap-next | replay-prev | reflect | splice |
-	// meta-payload-swap | meta-over-payload | nonce-advance-cut | none
+	// meta-payload-swap | meta-over-payload | nonce-advance-cut | nonce-advance-seals | le-pad-flip | none
 	Kind string `json:"kind"`
 	// nonce | meta-ct | meta-tag | pad1 | payload-ct | payload-tag | pad2 | boundary
 	Class string  `json:"class"`
@@ -248,6 +248,30 @@ func (t *c04TCP) emit(d *c04StreamDir, u *c04Unit) []byte {
 		}
 		return u.Raw
 	}
+	if m.Kind == "nonce-advance-seals" {
+		// remove the stream up to the sender's Param-th AEAD operation and advance the clear-text
+		// initial nonce by Param: on a unit boundary this is nonce-advance-cut; between a unit's two
+		// seals the receiver starts on the PAYLOAD nonce, in front of the payload's ciphertext
+		if t.applied {
+			return u.Raw
+		}
+		if t.cutSeal+u.seals() <= m.Param {
+			t.cut++
+			t.cutSeal += u.seals()
+			return nil
+		}
+		t.applied = true
+		t.target = u
+		if t.cutSeal == m.Param {
+			raw := u.Raw
+			if u.HasNonce {
+				raw = raw[24:]
+			}
+			return append(addToNonce(t.nonce0, m.Param), raw...)
+		}
+		t.cutSeal++
+		return append(addToNonce(t.nonce0, m.Param), u.Raw[u.layout()["payload-ct"].lo:]...)
+	}
 	if d.held != nil {
 		h := d.held
 		d.held = nil
@@ -255,6 +279,9 @@ func (t *c04TCP) emit(d *c04StreamDir, u *c04Unit) []byte {
 	}
 	if t.applied || m.Kind == "none" || !u.has(m.Class) || (u.Index == 0 && (m.Kind == "replay-prev" || m.Kind == "splice")) {
 		return u.Raw
+	}
+	if m.Kind == "le-pad-flip" && !(u.Seg.IsLE() && u.Seg.PayloadLen >= 16) {
+		return u.Raw // needs a low-entropy body of at least two 8-byte chunks
 	}
 	if d.seen < m.Unit {
 		d.seen++
@@ -295,6 +322,26 @@ func (t *c04TCP) emit(d *c04StreamDir, u *c04Unit) []byte {
 			if p.Seg.PayloadLen > 0 {
 				pl, ul := p.layout(), u.layout()
 				return append(append([]byte(nil), u.Raw[:ul["meta-tag"].hi]...), p.Raw[pl["meta-tag"].hi:]...)
+			}
+		}
+		return u.Raw
+	case "le-pad-flip":
+		// one PADDING bit of a low-entropy body flipped (Param 0: in the first 8-byte chunk — "mixed padding";
+		// Param 1: in a later chunk — "non-uniform padding"). A padding bit is one whose flip makes the
+		// reference decoder reject the body (flipping a data bit never does).
+		raw := append([]byte(nil), u.Raw...)
+		lo, n := u.layout()["payload-ct"].lo, int(u.Seg.PayloadLen)
+		from, to := 0, 8
+		if m.Param != 0 {
+			from, to = 8, n
+		}
+		for off := from; off < to && off < n; off++ {
+			for bit := uint(0); bit < 8; bit++ {
+				raw[lo+off] ^= 1 << bit
+				if _, err := wire.LEDecode(raw[lo:lo+n], int(u.Seg.ExtractedLen), u.Seg.Byte1, u.Seg.LEMask, u.Seg.LERot); err != nil {
+					return raw
+				}
+				raw[lo+off] ^= 1 << bit
 			}
 		}
 		return u.Raw
